@@ -57,6 +57,14 @@ class _TokFile:
             raise H.Poison("partial read of the token file")
         return self.t
 
+    def __getattr__(self, name):
+        # iteration, readline(s), seek ...: the token file only models read(); anything else is outside
+        # the model (the harness cannot judge), never a deviation of the code under test
+        raise H.Poison("token file used through %r (only read() is modelled)" % name)
+
+    def __iter__(self):
+        raise H.Poison("token file iterated (only read() is modelled)")
+
 
 def _time(tb, tick):
     """The linear stand-in clock's exact tempo-map time: 5 us/tick up to tb, 11 us/tick after."""
